@@ -226,8 +226,10 @@ def check(case, ctx):
     if builtin:
         tol = 1e-9 if case["scheme"] == "cvodes" else 1e-7
         for M in Ms:
-            if errs[M] > 100 * tol * (1 + np.max(np.abs(xe))) or errI[M] > 100 * tol * (1 + abs(Ie)):
-                fails.append(Fail("builtin-integrator-accuracy", feats, {"M": M, "state_error": errs[M], "integral_error": errI[M], "tolerance": tol}))
+            if errs[M] > 100 * tol * (1 + np.max(np.abs(xe))):
+                fails.append(Fail("builtin-integrator-accuracy", dict(feats, quantity="state"), {"M": M, "state_error": errs[M], "tolerance": tol}))
+            if errI[M] > 100 * tol * (1 + abs(Ie)):
+                fails.append(Fail("builtin-integrator-accuracy", dict(feats, quantity="integral"), {"M": M, "state_error": errs[M], "integral_error": errI[M], "tolerance": tol}))
     else:
         hmax1 = float(np.max(np.diff(tk)))
         for name, er, sg in (("state", errs, sx), ("integral", errI, sI)):
